@@ -19,7 +19,7 @@ import (
 // no blocking wait (WaitGroup.Wait / channel receive): a wait there would hold
 // back later tasks although semaphore slots are free.
 func ruleNoWaitInDispatchLoop(c *chk.Ctx, d *dispatchModel) {
-	cl := d.closure
+	cl := taskLoopFunc(c, d)
 	bad := ""
 	n := 0
 	ir.Instrs(cl, func(ins ssa.Instruction) {
@@ -676,4 +676,43 @@ func ruleNullErrorIsAbsent(c *chk.Ctx) {
 	if n == 0 {
 		c.Undecided("TABLE.null", nil, "member parser", 0, "member parser not found")
 	}
+}
+
+
+// taskLoopFunc: the function that holds the loop over the batch's tasks: the
+// smallest region from which every handler invocation is reached (the batch
+// runner itself, or the helper its fan-out loop was moved into).
+func taskLoopFunc(c *chk.Ctx, d *dispatchModel) *ssa.Function {
+	level := []ssa.Instruction{}
+	for _, s := range d.invokeSites {
+		level = append(level, s)
+	}
+	for depth := 0; depth < 5 && len(level) > 0; depth++ {
+		found := map[*ssa.Function]bool{}
+		for _, at := range level {
+			if ir.InCycle(at.Block()) {
+				found[at.Parent()] = true
+			}
+		}
+		if len(found) == 1 {
+			for f := range found {
+				return f
+			}
+		}
+		if len(found) > 1 {
+			break
+		}
+		var next []ssa.Instruction
+		seen := map[ssa.Instruction]bool{}
+		for _, at := range level {
+			for _, cs := range c.P.Callers(at.Parent()) {
+				if !seen[cs.Instr] {
+					seen[cs.Instr] = true
+					next = append(next, cs.Instr)
+				}
+			}
+		}
+		level = next
+	}
+	return d.closure
 }
